@@ -33,3 +33,21 @@ Theorem C08_workers_bounded_iter : forall (r : Runner) (srclen : nat) (ordered :
   runner_wf r -> length (iws (imrunp r srclen ordered stop panics sched)) <= m_maxt r.
 Proof. intros r srclen ordered stop panics sched Hw. apply imrun_threads; assumption. Qed.
 Print Assumptions C08_workers_bounded_iter.
+
+(** REFUTED for the reduce operator (known finding, DESIGN.md section 6): the per-worker partial
+    results are combined by the calling thread ([Runner::reduce]: [threads.map(join).reduce(op)]),
+    so with [Max(n)] the operator can be invoked by [n] workers and by the caller: [n + 1] distinct
+    threads.  (The concurrency clause is unaffected: the caller combines after the joins.)
+    A worker invokes the operator when it folds at least two values; the caller when at least two
+    workers come back with a value. *)
+From OrxPar Require Import Kernels Program.
+Definition op_threads {V} (pe : nat -> list (event V)) (wl : list worker) : nat :=
+  length (filter (fun w => 2 <=? length (flat_map (vals pe) (seen w))) wl)
+  + (if 2 <=? length (filter (fun w => 1 <=? length (flat_map (vals pe) (seen w))) wl) then 1 else 0).
+Theorem C08_reduce_operator_on_caller_refuted :
+  let r := mkRunner (Some 8%N) 2%N (RExact 2%N) in          (* Max(2) *)
+  let s := mrun r 8 (@nostop) ([0; 0] ++ round_robin 2 20) in
+  let pe := fun i : nat => [EYield i] in
+  all_doneb s = true /\ length (ws s) = 2 /\ op_threads pe (ws s) = 3.
+Proof. vm_compute. repeat split. Qed.
+Print Assumptions C08_reduce_operator_on_caller_refuted.
